@@ -92,7 +92,7 @@ pub fn exec_corpus(spec: &Spec, st: &mut Stats) -> Vec<u64> {
                     Ok(())
                 }
             }
-            Op::CloneThen(inner) => match guard(|| g.boxed_clone()) {
+            Op::CloneThen(inner) | Op::CloneFromThen(inner) => match guard(|| g.boxed_clone()) {
                 Ok(mut c) => match &**inner {
                     Op::U32 => guard(|| c.next_u32()).map(|v| d.u64(v as u64)),
                     Op::U64 => guard(|| c.next_u64()).map(|v| d.u64(v)),
@@ -163,7 +163,7 @@ impl Scenario for C18 {
     fn runs(&self, tier: Tier) -> u64 {
         match tier {
             Tier::Quick => 40_000,
-            Tier::Thorough => 2_000_000,
+            Tier::Thorough => 1_000_000,
         }
     }
     fn generate(&self, rng: &mut Prng, _tier: Tier) -> Spec {
